@@ -1,8 +1,72 @@
 //! C06 — fee splits. Function-level correspondence: the real `sg1` functions vs `LP.Sg1` (Lean).
 use cosmwasm_std::testing::mock_env;
 use cosmwasm_std::{MessageInfo, Response};
+use lp_harness::minters::{MinterKind, World as MWorld, GENESIS};
 use lp_harness::world::*;
 use lp_harness::*;
+use serde_json::json;
+
+const DEV: u64 = 55;
+const SELLER: u64 = 66;
+const BUYER: u64 = 20;
+
+/// Integration: create a real minter of kind `k` through its factory (mint_fee_bps = `bps`, price = `price`, developer = DEV,
+/// payment address = SELLER), let BUYER mint once at start+1, and report who received how much: the published schedule by
+/// caller (featured ⇒ 1/8, open edition ⇒ developer half first) is a claim about the CALLERS of sg1, not only about sg1.
+fn mint_fee_integration(k: usize, price: u128, bps: u64) -> String {
+    let kind = MinterKind::from_idx(k);
+    let mut w = MWorld::new(GENESIS + 1000);
+    let mut p = w.default_params(kind);
+    p.mint_fee_bps = bps;
+    p.min_mint_price = (0, price.min(p.min_mint_price.1));
+    p.dev_fee_address = DEV;
+    let Ok(f) = w.new_factory(kind.factory(), &p) else { return "setup-factory-failed".into() };
+    let mut a = w.default_create(kind, &p);
+    a.mint_price = (0, price);
+    a.payment_address = Some(SELLER);
+    w.fund(&addr(a.creator), 0, p.creation_fee.1);
+    let Ok((m, _c)) = w.create_minter(&f, kind, &a) else { return "setup-create-failed".into() };
+    w.set_time(a.start_time + 1);
+    w.fund(&addr(BUYER), 0, price);
+    let watch = [DEV, ID_LIQUIDITY_DAO, ID_LAUNCHPAD_DAO, ID_FAIRBURN_POOL, SELLER];
+    let before: Vec<u128> = watch.iter().map(|x| w.balance(&addr(*x), 0)).collect();
+    let sup0 = w.supply(0);
+    let msg = if kind.is_merkle() { json!({"mint":{"proof_hashes": null, "stage": null, "allocation": null}}) } else { json!({"mint":{}}) };
+    let funds: Vec<(u64, u128)> = if price > 0 { vec![(0, price)] } else { vec![] };
+    match w.exec(&addr(BUYER), &m, &msg, &funds) {
+        Err(_) => "err".into(),
+        Ok(_) => {
+            let d: Vec<u128> = watch.iter().zip(before.iter()).map(|(x, b)| w.balance(&addr(*x), 0) - *b).collect();
+            let burned = sup0 - w.supply(0);
+            format!("ok fee={} dev={} liq={} lp={} burned={} pool={} ## seller={} minter={}", d[0] + d[1] + d[2] + d[3] + burned, d[0], d[1], d[2], burned, d[3], d[4], w.balance(&m, 0))
+        }
+    }
+}
+
+/// Integration: Shuffle on a vending-family minter whose factory charges `fee`, paying `pay`.
+fn shuffle_fee_integration(k: usize, fee: u128, pay: u128) -> (u64, String) {
+    let kind = MinterKind::from_idx(k);
+    let mut w = MWorld::new(GENESIS + 1000);
+    let mut p = w.default_params(kind);
+    p.shuffle_fee = (0, fee);
+    let Ok(f) = w.new_factory(kind.factory(), &p) else { return (0, "setup-factory-failed".into()) };
+    let a = w.default_create(kind, &p);
+    w.fund(&addr(a.creator), 0, p.creation_fee.1);
+    let Ok((m, _c)) = w.create_minter(&f, kind, &a) else { return (0, "setup-create-failed".into()) };
+    w.fund(&addr(BUYER), 0, pay);
+    let watch = [DEV, ID_LIQUIDITY_DAO, ID_LAUNCHPAD_DAO, ID_FAIRBURN_POOL];
+    let before: Vec<u128> = watch.iter().map(|x| w.balance(&addr(*x), 0)).collect();
+    let sup0 = w.supply(0);
+    let funds: Vec<(u64, u128)> = if pay > 0 { vec![(0, pay)] } else { vec![] };
+    let out = match w.exec(&addr(BUYER), &m, &json!({"shuffle":{}}), &funds) {
+        Err(_) => "err".into(),
+        Ok(_) => {
+            let d: Vec<u128> = watch.iter().zip(before.iter()).map(|(x, b)| w.balance(&addr(*x), 0) - *b).collect();
+            format!("ok burned={} pool={} dev={} liq={} lp={} ## minter={}", sup0 - w.supply(0), d[3], d[0], d[1], d[2], w.balance(&m, 0))
+        }
+    };
+    (addr_id(&m), out)
+}
 
 struct S {
     last: Option<(String, String)>, // (line, output) for the monitor
@@ -16,6 +80,16 @@ impl Sut for S {
     fn exec(&mut self, line: &str) -> (String, String) {
         let op = line.split_whitespace().next().unwrap_or("");
         let dev = |l: &str| kv_opt_u64(l, "dev").unwrap().map(a);
+        if op == "mintfee" {
+            let out = mint_fee_integration(kv_u64(line, "kind").unwrap() as usize, kv_u128(line, "price").unwrap(), kv_u64(line, "bps").unwrap());
+            self.last = Some((line.to_string(), out.clone()));
+            return (format!("{line} dev={DEV}"), out);
+        }
+        if op == "shufflefee" {
+            let (m, out) = shuffle_fee_integration(kv_u64(line, "kind").unwrap() as usize, kv_u128(line, "fee").unwrap(), kv_u128(line, "pay").unwrap());
+            self.last = Some((line.to_string(), out.clone()));
+            return (format!("{line} minter={m}"), out);
+        }
         let out = catch(|| -> String {
             let mut res = Response::new();
             match op {
@@ -80,7 +154,45 @@ impl Sut for S {
         let fee = kv_u128(&line, "fee").unwrap_or(0);
         let dev = kv_opt_u64(&line, "dev").flatten().map(|x| x as u128);
         let bad = |p: &str, w: String| Some((format!("sg1/{op}/{p}"), format!("{w} on `{line}` => `{out}`")));
+        let getn = |o: &str, k: &str| -> u128 { kv_u128(primary_part(o), k).unwrap_or(u128::MAX) };
         match op {
+            "mintfee" if out.starts_with("ok") => {
+                // the published schedule by caller, transcribed independently of the model
+                let k = kv_u64(&line, "kind").unwrap();
+                let price = kv_u128(&line, "price").unwrap();
+                let b = kv_u128(&line, "bps").unwrap();
+                let name = MinterKind::from_idx(k as usize).name();
+                let f = price * b / 10_000;
+                let featured = name.contains("featured");
+                let has_dev = name.starts_with("open-edition");
+                let devp = if has_dev { f - f / 2 } else { 0 };
+                let rest = f - devp;
+                let den: u128 = if featured { 8 } else { 5 };
+                let liq = rest / den + if rest % den == 0 { 0 } else { 1 };
+                let got = (getn(&out, "dev"), getn(&out, "liq"), getn(&out, "lp"), getn(&out, "burned"), getn(&out, "pool"));
+                let want = (devp, liq, rest - liq, 0u128, 0u128);
+                let badk = |p: &str, w: String| Some((format!("{name}/mint/{p}"), format!("{w} on `{line}` => `{out}`")));
+                if got.0.saturating_add(got.1).saturating_add(got.2).saturating_add(got.3).saturating_add(got.4) != f {
+                    return badk("fee-parts-sum", format!("parts {:?} do not sum to the network fee {f}", got));
+                }
+                if got != want {
+                    return badk("fee-schedule", format!("expected dev/liq/lp/burned/pool = {:?} (featured={featured}, developer={has_dev})", want));
+                }
+                None
+            }
+            "shufflefee" if out.starts_with("ok") => {
+                let k = kv_u64(&line, "kind").unwrap();
+                let name = MinterKind::from_idx(k as usize).name();
+                let f = kv_u128(&line, "fee").unwrap();
+                let got = (getn(&out, "burned"), getn(&out, "pool"), getn(&out, "dev"), getn(&out, "liq"), getn(&out, "lp"));
+                if got != (f / 2, f - f / 2, 0, 0, 0) {
+                    return Some((format!("{name}/shuffle/fair-burn-schedule"), format!("shuffle fee {f}: expected burn {} + pool {} only, got {:?}", f / 2, f - f / 2, got)));
+                }
+                if kv_u128(&line, "pay").unwrap() < f {
+                    return Some((format!("{name}/shuffle/insufficient-accepted"), format!("shuffle accepted payment below the fee on `{line}`")));
+                }
+                None
+            }
             "fair_burn" if out.starts_with("ok") => {
                 let ms = parse(&out);
                 let sender = kv_u128(&line, "sender").unwrap();
@@ -229,6 +341,41 @@ fn main() {
         ses.step(&mut sut, &format!("dist denom={dn} fee={f} featured={ft} dev={}", dev_s(&d)));
         ses.step(&mut sut, &format!("ibc denom={dn} fee={f} dev={}", dev_s(&d)));
         ses.mark(format!("bits:{}:{}:{}", 128 - f.leading_zeros(), d.is_some(), ft));
+    }
+    ses.end_case();
+
+    // 2b. callers: real minters of all 9 priced kinds created through their factories; odd/even fees, tiny fees, all bps classes
+    ses.begin_case(&mut sut, "case callers");
+    let n_call = ses.scale(12, 400);
+    for k in 0..9u64 {
+        let name = MinterKind::from_idx(k as usize).name();
+        for i in 0..n_call {
+            let b = *rng.pick(&[1u64, 30, 100, 250, 500, 1000, 1000, 3333, 5000, 9999]);
+            let price: u128 = match i % 6 {
+                0 => 100_000_000,
+                1 => 100_000_030,                       // odd network fee at 10 %
+                2 => 50_000_000 + rng.below(1_000_000) as u128,
+                3 => rng.range(1, 400) as u128,          // tiny: zero fee / zero parts (the bank refuses empty sends)
+                4 => 10u128.pow(rng.range(3, 20) as u32) + rng.below(17) as u128,
+                _ => rng.sized_u128(90).max(1),
+            };
+            let out = ses.step(&mut sut, &format!("mintfee kind={k} price={price} bps={b}"));
+            let f = price * b as u128 / 10_000;
+            ses.mark(format!("caller:{name}:{}:fee-{}", &out[..2], if f == 0 { "zero" } else if f % 2 == 1 { "odd" } else { "even" }));
+        }
+        ses.require(format!("caller:{name}:ok:fee-odd"));
+        ses.require(format!("caller:{name}:ok:fee-even"));
+    }
+    for k in 0..6u64 {
+        let name = MinterKind::from_idx(k as usize).name();
+        for fee in [500_000_000u128, 500_000_001, 1, 2, 3, 7] {
+            for pay in [fee, fee + 1, fee - 1] {
+                let out = ses.step(&mut sut, &format!("shufflefee kind={k} fee={fee} pay={pay}"));
+                // an overpayment is accepted (`payment < fee` is the only rejection); the surplus stays with the minter (behind ` ## `)
+                ses.mark(format!("shuffle:{name}:{}:{}", &out[..2], if pay == fee { "exact" } else if pay > fee { "over" } else { "under" }));
+            }
+        }
+        ses.require(format!("shuffle:{name}:ok:exact"));
     }
     ses.end_case();
 
